@@ -706,15 +706,42 @@ func tolMatching(k *run.K) {
 				ms = append(ms, geom.NewPointXY(p.x, p.y).AsGeometry())
 			}
 			return geom.NewGeometryCollection(ms).AsGeometry()
-		default:
+		case 2:
 			var ls []geom.LineString
 			for _, p := range ps {
 				ls = append(ls, geom.NewLineStringXY(p.x, p.y, p.x, p.y+20))
 			}
 			return geom.NewMultiLineString(ls).AsGeometry()
+		default:
+			// rings: squares of side 20 (any rotated or reversed alignment of two of them has a vertex
+			// pair ~20 apart, far above the tolerance, so only the identity alignment can match).
+			sq := func(p pt) geom.LineString {
+				return geom.NewLineStringXY(p.x, p.y, p.x+20, p.y, p.x+20, p.y+20, p.x, p.y+20, p.x, p.y)
+			}
+			if kind == 4 || kind == 6 { // MultiPolygon members
+				var polys []geom.Polygon
+				for _, p := range ps {
+					polys = append(polys, geom.NewPolygon([]geom.LineString{sq(p)}))
+				}
+				mp := geom.NewMultiPolygon(polys).AsGeometry()
+				if kind == 6 {
+					return geom.NewGeometryCollection([]geom.Geometry{mp}).AsGeometry()
+				}
+				return mp
+			}
+			// holes of one polygon (ExactEquals is structural: validity is not required)
+			rings := []geom.LineString{geom.NewLineStringXY(-100, -100, 200, -100, 200, 200, -100, 200, -100, -100)}
+			for _, p := range ps {
+				rings = append(rings, sq(p))
+			}
+			poly := geom.NewPolygon(rings)
+			if kind == 5 {
+				return geom.NewGeometryCollection([]geom.Geometry{geom.NewMultiPolygon([]geom.Polygon{poly}).AsGeometry()}).AsGeometry()
+			}
+			return poly.AsGeometry()
 		}
 	}
-	kind := r.Intn(3)
+	kind := r.Intn(7)
 	ga, gb := build(a, kind), build(b, kind)
 	k.In("a", ga.AsText())
 	k.In("b", gb.AsText())
